@@ -6,8 +6,6 @@ import (
 	"crypto/x509"
 	"encoding/pem"
 	"fmt"
-	"io"
-	"os"
 	"time"
 
 	"github.com/google/gce-tcb-verifier/cmd/output"
@@ -19,6 +17,7 @@ import (
 	"google.golang.org/protobuf/proto"
 
 	"verifsim/core"
+	"verifsim/gcli"
 	"verifsim/images"
 	"verifsim/refv"
 	"verifsim/worldp"
@@ -47,49 +46,13 @@ func init() {
 	})
 }
 
-// memIO is the in-memory cmd.IO double.
-type memIO struct {
-	Files map[string][]byte
-	Out   map[string]*bytes.Buffer
-	Reads []string
-}
+// memIO is the in-memory cmd.IO double (package gcli).
+type memIO = gcli.MemIO
 
-type memWriter struct{ io.Writer }
-
-func (memWriter) IsTerminal() bool { return false }
-
-func (m *memIO) Create(path string) (gcetcbendorsement.TerminalWriter, func(), error) {
-	b := &bytes.Buffer{}
-	m.Out[path] = b
-	return memWriter{b}, func() {}, nil
-}
-
-func (m *memIO) ReadFile(path string) ([]byte, error) {
-	m.Reads = append(m.Reads, path)
-	b, ok := m.Files[path]
-	if !ok {
-		return nil, os.ErrNotExist
-	}
-	return append([]byte(nil), b...), nil
-}
-
-func newMemIO() *memIO { return &memIO{Files: map[string][]byte{}, Out: map[string]*bytes.Buffer{}} }
+func newMemIO() *memIO { return gcli.NewMemIO() }
 
 // runCLI runs the gcetcbendorsement cobra app with a simulated backend.
-func runCLI(b *gcmd.Backend, args ...string) (err error) {
-	defer func() {
-		if p := recover(); p != nil {
-			err = fmt.Errorf("PANIC: %v", p)
-			panic(p)
-		}
-	}()
-	root := gcmd.MakeRoot(gcmd.VerifWithBackend(context.Background(), b))
-	root.SetArgs(args)
-	root.SilenceErrors, root.SilenceUsage = true, true
-	root.SetOut(io.Discard)
-	root.SetErr(io.Discard)
-	return root.Execute()
-}
+func runCLI(b *gcmd.Backend, args ...string) error { return gcli.Run(b, args...) }
 
 func pemOf(certs ...*x509.Certificate) []byte {
 	var b []byte
